@@ -52,6 +52,10 @@ def _specs(seq, final):
         elif oc == "pingtimeout":
             specs.append({"script": [(1, server_frame(1, 2, bytes([0x41 + i]))), (300, "EOF")]})  # never answers pings (gives up after 300 s)
             loss_after.append(None)
+        elif oc == "pingtimeout-chatty":
+            # never answers pings but keeps sending (a server ping every 2 s for 120 s): the loop's select never times out
+            specs.append({"script": [(1, server_frame(1, 2, bytes([0x41 + i])))] + [(2, server_frame(1, 9, b""))] * 60 + [(300, "EOF")]})
+            loss_after.append(None)
         elif oc == "close":
             specs.append({"script": [(1, server_frame(1, 2, bytes([0x41 + i]))), (1, close_frame(1000))], "on_frame_bytes": _answer_ping})
             loss_after.append(2)
@@ -83,7 +87,7 @@ def k_seq(seq, final, ping=False, on_reconnect=True, default=False):
     run.k.on_yield = watch
     old_default = A.RECONNECT
     rf = {}
-    needs_ping = ping or "pingtimeout" in seq
+    needs_ping = ping or "pingtimeout" in seq or "pingtimeout-chatty" in seq
     if needs_ping:
         rf.update(ping_interval=10, ping_timeout=3)
     try:
@@ -320,6 +324,9 @@ def obligations(tier):
         for final in ("close", "userclose"):
             seqs.append(dict(seq=[mo], final=final))
             seqs.append(dict(seq=[mo, "refused", mo], final=final))
+    for final in ("close", "userclose"):  # a peer that stops answering pings but keeps sending (round 7)
+        seqs.append(dict(seq=["pingtimeout-chatty"], final=final))
+        seqs.append(dict(seq=["eof", "pingtimeout-chatty"], final=final))
     extra = [dict(seq=["eof", "refused"], final="close", on_reconnect=False), dict(seq=["reset"], final="userclose", on_reconnect=False),
              dict(seq=["eof"], final="close", default=True), dict(seq=["refused", "eof"], final="userclose", default=True),
              dict(seq=["eof", "eof"], final="close", ping=True), dict(seq=["reset", "refused"], final="userclose", ping=True)]
@@ -327,7 +334,7 @@ def obligations(tier):
     ext += [dict(seq=[l], final="close", close_in_timer=True) for l in ("eof", "refused", "rejected")]
     return [
         Obligation("K-seq", k_seq, seqs + extra,
-                   bounds="all sequences of <=%d failed/lost connections over {refused, rejected, end of stream, reset, ping timeout} followed by a connection "
+                   bounds="all sequences of <=%d failed/lost connections over {refused, rejected, end of stream, reset, ping timeout (silent peer; also a peer that keeps sending but never answers pings)} followed by a connection "
                           "ended by a server close frame or by the application's close(); reconnect interval a solver real in (0,20]; option and module-wide "
                           "default; with/without on_reconnect; with/without ping thread" % cmax,
                    must_cover=["seq", "server-close-ends", "user-close-ends"], budget_s=2400 if thorough else 1200, step_budget=100000,
